@@ -345,6 +345,31 @@ mod vis {
         HiddenTypeIota(HiddenTypeIota),
     }
 
+    // types that are referenced ONLY through a field of the interface `Item`, whose single implementor can be
+    // hidden: they must stay listed as long as the interface field is visible
+    #[derive(SimpleObject, Clone)]
+    pub struct Detail {
+        pub text: String,
+    }
+    #[derive(InputObject)]
+    pub struct DetailFilter {
+        pub q: Option<i32>,
+    }
+    #[derive(Clone)]
+    pub struct HiddenImplLambda;
+    #[Object(visible = "t_iota")]
+    impl HiddenImplLambda {
+        async fn detail(&self, filter: Option<DetailFilter>) -> Detail {
+            let _ = filter;
+            Detail { text: "d".into() }
+        }
+    }
+    #[derive(Interface, Clone)]
+    #[graphql(field(name = "detail", ty = "Detail", arg(name = "filter", ty = "Option<DetailFilter>")))]
+    pub enum Item {
+        HiddenImplLambda(HiddenImplLambda),
+    }
+
     #[derive(Union, Clone)]
     pub enum Subject {
         Account(Account),
@@ -384,6 +409,9 @@ mod vis {
         }
         async fn entities(&self) -> Vec<Entity> {
             vec![Entity::Account(account()), Entity::Team(team())]
+        }
+        async fn item(&self) -> Option<Item> {
+            None
         }
         // anchors: every hideable type is referenced by an element that is visible exactly when the type is
         #[graphql(visible = "t_alpha")]
@@ -450,12 +478,17 @@ type Account implements HiddenIfaceGamma & Entity {
 type Team implements Entity { id: ID! size: Int! hiddenIfaceFieldXi: Int! @need(cap: "F_XI") }
 interface HiddenIfaceGamma @need(cap: "T_GAMMA") { id: ID! }
 interface Entity { id: ID! hiddenIfaceFieldXi: Int! @need(cap: "F_XI") }
+type Detail { text: String! }
+input DetailFilter { q: Int }
+type HiddenImplLambda implements Item @need(cap: "T_IOTA") { detail(filter: DetailFilter): Detail! }
+interface Item { detail(filter: DetailFilter): Detail! }
 union Subject = Account | Team | HiddenTypeAlpha
 union HiddenUnionKappa @need(cap: "T_KAPPA") = Account | Team
 type Query {
   account(hiddenArgDelta: Int @need(cap: "A_DELTA"), search: Search, paging: Paging, hiddenThetaArg: HiddenInputTheta @need(cap: "A_THETA")): Account!
   subject: Subject!
   entities: [Entity!]!
+  item: Item
   hiddenAlphaAnchor: HiddenTypeAlpha
   hiddenIotaAnchor: HiddenTypeIota
   hiddenZetaAnchor: HiddenEnumZeta
